@@ -7,7 +7,8 @@ demo = open(os.path.join(src, "demo_mutant.rs")).read()
 meta = json.load(open(os.path.join(src, "meta.json")))
 m = re.search(r"(rand_\w+)/tests", demo) or re.search(r"-p (rand_\w+)", demo)
 crate = m.group(1)
-feat = ["--features", "serde"] if "--features serde" in demo else []
+mf = re.search(r"--features[ =]([\w,]+)", demo)
+feat = ["--features", mf.group(1)] if mf else []
 wt = tempfile.mkdtemp(prefix="confirm_", dir="/tmp")
 os.rmdir(wt)
 def sh(cmd, cwd=None):
